@@ -351,6 +351,13 @@ def download(server_addr, name, options=(), *, family=socket.AF_INET, timeout=2.
     try:
         s.sendto(enc_req(RRQ, name, mode, options), server_addr)
         kind, f, src = recv(s, tr)
+        for _ in range(4):
+            if kind != "ACK":
+                break
+            # an ACK is no answer to a read request: a datagram of an earlier transfer on this host whose client port was
+            # re-used; wait for the real answer
+            tr.note += "stray ACK before the first reply ignored; "
+            kind, f, src = recv(s, tr)
         tr.first = (kind, f, src)
         if kind is None:
             tr.note = "no reply"
@@ -440,6 +447,12 @@ def upload(server_addr, name, data, options=(), *, family=socket.AF_INET, timeou
     try:
         s.sendto(enc_req(WRQ, name, mode, options), server_addr)
         kind, f, src = recv(s, tr)
+        for _ in range(4):
+            if kind != "DATA":
+                break
+            # DATA is no answer to a write request (see download)
+            tr.note += "stray DATA before the first reply ignored; "
+            kind, f, src = recv(s, tr)
         tr.first = (kind, f, src)
         if kind is None:
             tr.note = "no reply"
